@@ -60,18 +60,18 @@ Drift(ev, T, p) ==
     (IF \E m \in DOMAIN T : /\ ~T[m].adv /\ ~T[m].fail
                             /\ IF ev.op \in {"findnode", "join"}
                                THEN Len(T[m].reply) > (IF ev.op = "findnode" THEN 3 ELSE 10)
-                               ELSE \E i \in 1..Len(T[m].reply) : ~Lt(T[m].reply[i], m)
+                               ELSE \E i \in 1..Len(T[m].reply) : ~Lt(ev.dist, T[m].reply[i], m)
      THEN {"cap"} ELSE {})
 
-TraceInit == l = 1 /\ st = Start("findnode", <<>>, 0, 0)
+TraceInit == l = 1 /\ st = Start("findnode", <<>>, 0, 0, <<>>)
 
 TraceNext ==
     /\ l <= Len(Log)
     /\ l' = l + 1
     /\ LET ev == Log[l]
            T == TopoOf(ev)
-           p == Run(Start(ev.op, ev.init, ev.min, ev.vmode), T, BadOf(T))
-           vs == Falsified(ev.op, ev.min, ev.vmode, ev.contacts, T, TargetKnown(ev, T), ObsRes(ev),
+           p == Run(Start(ev.op, ev.init, ev.min, ev.vmode, ev.dist), T, BadOf(T))
+           vs == Falsified(ev.op, ev.min, ev.vmode, ev.dist, ev.contacts, T, TargetKnown(ev, T), ObsRes(ev),
                            ev.err, ev.panic, ev.nonterm)
            ds == Drift(ev, T, p)
        IN /\ st' = p
